@@ -71,6 +71,8 @@ func (f *Files) init() {
 	pathCount := make(map[string]int)
 	if f.AllowStdin && len(f.Paths) == 0 {
 		f.inputs = append(f.inputs, input{"-", "-", true, false})
+		// The implied "-" is the only input: its label needs no "#N".
+		pathCount["-"]++
 	}
 	for _, path := range f.Paths {
 		// Parse the label.
